@@ -124,6 +124,22 @@ META["C05"] = ("TLC computes the written value of every numeric/register spellin
 META["C36"] = ("TLC compares the statement reparsed by the real parser from the real Display text with the original statement (without spans), and reads the printed text with Grammar!ParseProgram (TV_Parse)",
          "Every statement of parsed generated programs plus a fixed list of boundary forms.", "Strings restricted as the property states.", "5 (C36)")
 
+def _aug(pid, tech_add, text_add):
+    t, x, n, r = META[pid]
+    META[pid] = (t + tech_add, x + text_add, n, r)
+
+for _p in ("C01", "C02", "C21", "C24", "C26"):
+    _aug(_p, " + TLC: MC_Asm (operational = declarative assembler on every program of <= 4/5 statements over 17 templates)",
+         " MC_Asm model-checks, inside the specification, that pass 1 / pass 2 as transcribed from the code agree with the declarative statements of C01, C02, C21, C24 and C26 for every program of up to 4 (thorough: 5) statements over a universe of 17 statement templates (177 482 states).")
+for _p in ("C20", "C21", "C22"):
+    _aug(_p, " + TLC: MC_Link (all ordered pairs and triples of 9 assembled files x debug/no debug)",
+         " MC_Link model-checks Linker!Link on every ordered pair and triple of nine small assembled files (with and without debug symbols): the iff-condition of success, the patched union image, order and grouping independence, pending references, line texts and label offsets (12 331 states).")
+for _p in ("C08", "C09", "C14", "C16", "C27", "C28"):
+    _aug(_p, " + TLC: MC_Machine (adversarial boundary states x 59-word instruction universe, depth 1/2)",
+         " MC_Machine model-checks the specification's own step from adversarial machine states (PC, registers, R6 and all memory drawn from 12 boundary addresses; user and supervisor; real and virtual traps; strict or not; initialized or not) with every word of a 59-word instruction universe placed at the PC: totality, Isolation, DepthOK, ObsProp, StrictRel, no strict error on an initialized machine, condition-code and instruction-count structure (552 960 states; thorough: depth 2, 1.29 M distinct).")
+_aug("C32", " + RP: TLC (MC_Devices) enumerates every history of <= 3/4 calls over a 22-call alphabet, checks C32 on every table, and each history is replayed on the real Simulator and validated by TLC",
+     " MC_Devices enumerates every history of up to 3 (thorough: 4) calls over 22 calls (add/remove/mmap/munmap/read/write incl. occupied, non-I/O, stale and default cases), checks the statement of C32 on every reachable table, and prints each maximal history; the harness replays all 10 648 (234 256) histories on real simulators and TLC validates every recorded call with the same operators.")
+
 def main():
     props = [json.loads(l) for l in open(os.path.join(ROOT, "properties.jsonl"))]
     done = sorted(check.CHECKS)
